@@ -76,3 +76,8 @@ package measurement
 //@   loop 1
 //@     invariant 0 <= $i && $i <= len(UnitTypes)
 //@     invariant forall t int :: 0 <= t && t < $i ==> !known(UnitTypes[t], normunit(fromUnit))
+
+// The unit table is well formed once the package is initialised (C09/C15: callers of Scale rely on it;
+// that no function other than the initialiser writes the table is the static obligation "global-frame").
+//@ func init arith bv floatabs=yes nosafety
+//@   ensures unitsok: forall t int :: 0 <= t && t < len(UnitTypes) ==> factorsok(UnitTypes[t])
